@@ -186,7 +186,7 @@ func c05Rules(p *core.Prog, r *core.Run) {
 	c01Route(p, r, m, "C05.P3")
 
 	// --- P4
-	c05Direct(p, r, m)
+	c05Direct(p, r, m, "C05.P4")
 
 	// --- P5
 	c05SniAlpn(p, r, m)
@@ -264,7 +264,7 @@ func c01Route(p *core.Prog, r *core.Run, m *echModel, rule string) {
 	}
 }
 
-func c05Direct(p *core.Prog, r *core.Run, m *echModel) {
+func c05Direct(p *core.Prog, r *core.Run, m *echModel, rule string) {
 	// Read
 	reads := callSites(p, []*ssa.Function{m.read}, `\(net\.Conn\)\.Read`)
 	okR := false
@@ -278,9 +278,9 @@ func c05Direct(p *core.Prog, r *core.Run, m *echModel) {
 			returned = ok0 && ok1 && e0.Tuple == ssa.Value(c) && e1.Tuple == ssa.Value(c) && e0.Index == 0 && e1.Index == 1
 		}
 		okR = direct && returned
-		r.Check("C05.P4", "Read:direct", okR, p.InstrPos(s.Instr), "Read returns c.Conn.Read(b) with the caller's buffer unchanged (%v) and its results as they are (%v)", direct, returned)
+		r.Check(rule, "Read:direct", okR, p.InstrPos(s.Instr), "Read returns c.Conn.Read(b) with the caller's buffer unchanged (%v) and its results as they are (%v)", direct, returned)
 	}
-	r.Check("C05.P4", "Read:direct-site", len(reads) == 1, p.Pos(m.read.Pos()), "one direct read site (found %d)", len(reads))
+	r.Check(rule, "Read:direct-site", len(reads) == 1, p.Pos(m.read.Pos()), "one direct read site (found %d)", len(reads))
 	for _, s := range callSites(p, []*ssa.Function{m.read}, `ech\.readRecord`) {
 		fs := p.Facts(s.Block())
 		off := false
@@ -289,7 +289,7 @@ func c05Direct(p *core.Prog, r *core.Run, m *echModel) {
 				off = true
 			}
 		}
-		r.Check("C05.P4", "Read:no-inspection-in-passthrough", off, p.InstrPos(s.Instr), "the record reader runs only while readPassthrough is false")
+		r.Check(rule, "Read:no-inspection-in-passthrough", off, p.InstrPos(s.Instr), "the record reader runs only while readPassthrough is false")
 	}
 	// uses of b in Read: the copy into it and the direct read
 	for _, s := range allCalls(p, []*ssa.Function{m.read}) {
@@ -303,7 +303,7 @@ func c05Direct(p *core.Prog, r *core.Run, m *echModel) {
 			continue
 		}
 		ok := s.X.Name == "copy" || s.X.Name == "(net.Conn).Read"
-		r.Check("C05.P4", "Read:buffer-use:"+s.X.Name, ok, p.InstrPos(s.Instr), "the caller's buffer is only the destination of copy() or of the direct read")
+		r.Check(rule, "Read:buffer-use:"+s.X.Name, ok, p.InstrPos(s.Instr), "the caller's buffer is only the destination of copy() or of the direct read")
 	}
 	// Write
 	writes := callSites(p, []*ssa.Function{m.write}, `\(net\.Conn\)\.Write`)
@@ -331,10 +331,10 @@ func c05Direct(p *core.Prog, r *core.Run, m *echModel) {
 			returned = ok0 && ok1 && e0.Tuple == ssa.Value(c) && e1.Tuple == ssa.Value(c)
 		}
 		okW = pt && empty && returned
-		r.Check("C05.P4", "Write:direct", okW, p.InstrPos(s.Instr), "Write returns c.Conn.Write(b) directly under writePassthrough (%v) with nothing buffered (%v), results unchanged (%v)", pt, empty, returned)
+		r.Check(rule, "Write:direct", okW, p.InstrPos(s.Instr), "Write returns c.Conn.Write(b) directly under writePassthrough (%v) with nothing buffered (%v), results unchanged (%v)", pt, empty, returned)
 	}
-	r.Check("C05.P4", "Write:direct-site", okW, p.Pos(m.write.Pos()), "a direct write path exists")
-	r.Floor("C05.P4", 6)
+	r.Check(rule, "Write:direct-site", okW, p.Pos(m.write.Pos()), "a direct write path exists")
+	r.Floor(rule, 6)
 }
 
 func c05SniAlpn(p *core.Prog, r *core.Run, m *echModel) {
